@@ -26,7 +26,7 @@ class C10(Prop):
     id = "C10"
     imports = ["Num.Kernels", "Run.RunNum"]
     coq_batch = 60
-    rule = ("entropy, cross_entropy, kl_divergence over f64 and f32: non-negative arrays, normalised or not, zeros in p and/or q, "
+    rule = ("entropy, cross_entropy, kl_divergence over f64, f32 and N64 (checked double: a NaN anywhere panics): non-negative arrays, normalised or not, zeros in p and/or q, "
             "subnormal p_i (with q_i = 0, p_i, 2 p_i, 4 p_i), NaN placements, shapes of 1-3 dimensions, independently drawn layouts for p and q; bit-for-bit against the Flocq "
             "model with ln as an oracle table recorded from the implementation's libm; independent oracle: the definition in "
             "double precision with a roundoff tolerance, plus the identities KL(p,p) = 0, H(p,q) = H(p) + KL(p,q), KL >= 0 for "
@@ -83,7 +83,35 @@ class C10(Prop):
                 yield mk_alias_case("kl_divergence", et, pbuf, la, lb, "", grp=grp, norm=False, role="KL")
                 yield mk_alias_case("cross_entropy", et, pbuf, la, lb, "", grp=grp, norm=False, role="Hpq")
 
+        # the same routines on noisy_float's checked double N64 (the crate's own tests use it): finite or infinite, never
+        # NaN, and EVERY operation panics on a NaN result (debug profile) - so an expression the f64 code would compute
+        # and throw away (q_i / p_i with p_i = q_i = 0, before the p_i == 0 test) is visible here
+        for rep in range(30 if tier == "quick" else 1500):
+            nd = rng.range(1, 2)
+            shape = [rng.range(1, 12)] if nd == 1 else [rng.range(1, 4) for _ in range(nd)]
+            n = prod(shape)
+            norm = rng.chance(1, 2)
+            p = prob_vec(n, rng, "f64", norm, rng.choice([0, 1, 2, 3]))
+            q = prob_vec(n, rng, "f64", norm, rng.choice([0, 0, 1, 2]))
+            for k in range(n):
+                if p[k] == 0 and rng.chance(1, 2):
+                    q[k] = rng.choice([0.0, 0.0, float("inf"), 0.25])
+            lays = zoo(shape, rng, 2)
+            la, lb = rng.choice(lays), rng.choice(lays)
+            grp = "n%d" % rep
+            for c in (mk_num_case("entropy", "f64", [(shape, p, la)], "", grp=grp, norm=norm, role="Hp"),
+                      mk_num_case("kl_divergence", "f64", [(shape, p, la), (shape, q, lb)], "", grp=grp, norm=norm, role="KL"),
+                      mk_num_case("cross_entropy", "f64", [(shape, p, la), (shape, q, lb)], "", grp=grp, norm=norm, role="Hpq"),
+                      mk_num_case("kl_divergence", "f64", [(shape, p, la), (shape, p, lb)], "", grp=grp, norm=norm, role="KLself")):
+                assert c.line.startswith("f64 ")
+                c.line = "n64 " + c.line[4:]
+                c.noisy = True
+                yield c
+
     def parse(self, case):
+        if getattr(case, "noisy", False) and case.raw.split()[:1] == ["PANIC"]:
+            case.obs = dict(tag="PANIC", vals=[])
+            return
         parse_num(case)
 
     def _ln_args(self, case):
@@ -116,14 +144,41 @@ class C10(Prop):
 
     def oracle(self, case):
         o = case.obs
-        if o["tag"] != "OK":
+        noisy = getattr(case, "noisy", False)
+        if o["tag"] != "OK" and not (noisy and o["tag"] == "PANIC"):
             return ["error: %s on same-shaped non-empty input" % o]
         et = case.et
         fp = FP(et)
-        g = fval(et, o["vals"][0])
+        g = fval(et, o["vals"][0]) if o["tag"] == "OK" else None
         p = case.vals[0]
         q = case.vals[1] if len(case.vals) > 1 else None
         n = len(p)
+        if g is None:
+            # N64 panicked: legitimate only when the DEFINITION's value is NaN (a contributing term is NaN, or +inf and -inf
+            # terms meet); a term with p_i = 0 contributes exactly zero and must not even be evaluated into a NaN
+            live = [(a, (q[i] if q is not None else None)) for i, a in enumerate(p) if a != 0]
+            bad = False
+            for a, b in live:
+                if case.routine == "entropy":
+                    bad |= a < 0
+                elif case.routine == "cross_entropy":
+                    bad |= b < 0 or (b == float("inf") and False)
+                else:
+                    bad |= (b / a) < 0 if a != float("inf") else True
+            infs = set()
+            for a, b in live:
+                if case.routine == "entropy":
+                    t = a * math.log(a) if a > 0 and a != float("inf") else (float("inf") if a == float("inf") else 0.0)
+                elif case.routine == "cross_entropy":
+                    t = (float("-inf") if b == 0 else (float("inf") if b == float("inf") else a * math.log(b))) if b >= 0 else 0.0
+                else:
+                    r_ = b / a if a != float("inf") else 0.0
+                    t = (float("-inf") if r_ == 0 else (float("inf") if r_ == float("inf") else a * math.log(r_))) if r_ >= 0 else 0.0
+                if t in (float("inf"), float("-inf")):
+                    infs.add(t)
+            if bad or len(infs) == 2:
+                return []
+            return ["panic: %s panicked on N64 input although every contributing term is defined (a term with p_i = 0 must contribute exactly zero without being evaluated)" % case.routine]
         terms = []
         for i, a in enumerate(p):
             if a == 0:
@@ -183,6 +238,10 @@ class C10(Prop):
         return out
 
     def chk_term(self, case):
+        if getattr(case, "noisy", False) and case.obs["tag"] == "PANIC":
+            # N64 (debug profile) panics exactly when the binary64 computation produces a NaN somewhere, which then
+            # propagates to the result of these kernels
+            return "chkn (%s) %s" % (self.model_term(case), zlist([9221120237041090560]))
         if case.obs["tag"] != "OK":
             return "false"
         return "chkn (%s) %s" % (self.model_term(case), zlist(case.obs["vals"]))
